@@ -120,15 +120,8 @@ func (c *DefaultMatcher) Match(args []reflect.Value) bool {
 		args = args[1:]
 	}
 	if c.isVariadic {
-		// 可变参数需要展开参数数组
-		expandArgs := make([]reflect.Value, 0)
-		for _, v := range args {
-			rv := reflect.ValueOf(v.Interface())
-			for i := 0; i < rv.Len(); i++ {
-				expandArgs = append(expandArgs, rv.Index(i))
-			}
-		}
-		args = expandArgs
+		// 可变参数需要展开参数数组(只展开最后一个参数, 前面的固定参数保持不变)
+		args = arg.ExpandVariadic(args)
 	}
 	if len(args) != len(c.exprs) {
 		return false
